@@ -131,7 +131,8 @@ def _compute(ctx, suf, entry, monitor_kind, log=None):
         base_classes = dfa.class_of
     workers = int(os.environ.get('E1_WORKERS', '12'))
     res = explore(ctx, suf, fname, setup, mon, base_classes, nul=nul, log=log, workers=workers,
-                  needs_cache=NeedsCache(ctx, suf, entry))
+                  needs_cache=NeedsCache(ctx, suf, entry + ('-x' if monitor_kind.startswith('peb') else '')),
+                  exact_regs=monitor_kind.startswith('peb'))
     al = res.alphabet
     finals = []
     for (m, st, val, nid) in res.finals:
@@ -143,6 +144,12 @@ def _compute(ctx, suf, entry, monitor_kind, log=None):
             ep = None
         code2 = st.env.get((STATE, ('errorCode',))) if where == 'STATE' else None
         regs = dict((k[1], v) for k, v in st.env.items() if k[0] == URI)
+        if monitor_kind.startswith('peb'):
+            res.machine.pa = mon.pa_of(m)
+            res.machine.tracking = True
+            for k, v in list(regs.items()):
+                if v[0] in ('p', 'pp', 'e'):
+                    regs[k] = ('pin', res.machine.at_of(st, v))
         ind = mon.indicators(m) if monitor_kind == 'cls' else None
         pebv = None
         if monitor_kind.startswith('peb'):
